@@ -12,7 +12,7 @@ from pymemcache.exceptions import MemcacheError, MemcacheIllegalInputError
 PROPERTY = "C02"
 LEVEL = "exploration"
 # parts repeated in a child interpreter started with -O and with warnings turned into errors (vlib/runner.py, MODES)
-MODE_PARTS = {"OW": ['flag-spellings', 'integers-and-values', 'multi-key', 'serde-and-flags', 'class-keys-len3', 'byte-at-position', 'raw-commands', 'bytes-like-payloads', 'unnormalised-unicode-keys']}
+MODE_PARTS = {"OW": ['subclassed-clients', 'flag-spellings', 'integers-and-values', 'multi-key', 'serde-and-flags', 'class-keys-len3', 'byte-at-position', 'raw-commands', 'bytes-like-payloads', 'unnormalised-unicode-keys']}
 RULE = ("case = (client kind, configuration {key_prefix, allow_unicode_keys, encoding, default_noreply}, operation "
         "record). Enumerated: every bytes key of length 0-2 over the full byte alphabet (65 793) on get and set "
         "(thorough: every single-key operation, and str keys over code points 0-255); keys of length 3 over 15 class "
@@ -97,12 +97,27 @@ def check(case):
         from props import c04
         kw["serde"] = c04.make_serde(tuple(cfg["serde"]))
         cfg = dict(cfg, serde_obj=c04.make_serde(tuple(cfg["serde"])))      # an independent instance computes the intended payload/flags
+    r_wire = r
+    if cfg.get("client_class"):
+        # the stack is built around a Client subclass that maps the caller's keys into a namespace: the command on the wire
+        # must be the one intended for the mapped key - mapped exactly once
+        from vlib import subclasses
+        kw["client_class"] = subclasses.CLIENT_CLASSES[cfg["client_class"]]
+        kw["client_class_how"] = cfg.get("client_class_how", "assign")
+        r_wire = dict(r)
+        for f in ("key",):
+            if f in r_wire and isinstance(r_wire[f], (str, bytes)):
+                r_wire[f] = subclasses._ns(r_wire[f])
+        if "keys" in r_wire:
+            r_wire["keys"] = [subclasses._ns(x) for x in r_wire["keys"]]
+        if "values" in r_wire:
+            r_wire["values"] = {subclasses._ns(x): v for x, v in r_wire["values"].items()}
     try:
         c = env.client(kind, **kw)
     except Exception as e:  # noqa: BLE001
         raise Violation(["constructor", type(e).__name__], "client construction failed: %r (%r)" % (e, cfg))
     try:
-        want = ops.intended(r, cfg)
+        want = ops.intended(r_wire, cfg)
     except ops.CannotEncode:
         want = None
     # give conditional commands something to act on so that replies are ordinary
@@ -408,6 +423,26 @@ def flag_spelling_cases(tier, seed):
                            "op": dict(r, noreply=sp)}
 
 
+def subclass_cases(tier, seed):
+    """every command through a Client subclass that puts keys into a namespace, used directly and as the client_class of the
+    pooled and hash stacks"""
+    i = 0
+    for kind in ("client", "pooled", "hash", "hash-pooled"):
+        for how in ("assign", "classattr"):
+            for prefix in (b"", b"p:"):
+                cfg = dict(BASE_CFG, key_prefix=prefix, client_class="namespace", client_class_how=how, default_noreply=bool(i % 2))
+                for op in SINGLE_OPS:
+                    for key in ("k", b"kb", "user:1"):
+                        i += 1
+                        yield {"kind": kind, "cfg": cfg, "op": rec_for(op, key, i)}
+                for keys in (["a"], ["a", b"b", "c"]):
+                    i += 1
+                    yield {"kind": kind, "cfg": cfg, "op": {"op": "get_many", "keys": keys}}
+                    yield {"kind": kind, "cfg": cfg, "op": {"op": "gets_many", "keys": keys}}
+                    yield {"kind": kind, "cfg": cfg, "op": {"op": "delete_many", "keys": keys, "noreply": bool(i & 1)}}
+                    yield {"kind": kind, "cfg": cfg, "op": {"op": "set_many", "values": {k: PAYLOAD for k in keys}, "noreply": bool(i & 1)}}
+
+
 def serde_flag_cases(tier, seed):
     """a serializer that produces its own flags, combined with every explicit flags value (None = use the serializer's)"""
     i = 0
@@ -610,6 +645,7 @@ PARTS = [
     Part("integers-and-values", "enum", check, cases=integer_cases, exhaustive=True),
     Part("serde-and-flags", "enum", check, cases=serde_flag_cases, exhaustive=True),
     Part("flag-spellings", "enum", check, cases=flag_spelling_cases, exhaustive=True),
+    Part("subclassed-clients", "enum", check, cases=subclass_cases, exhaustive=True),
     Part("bytes-like-payloads", "enum", check, cases=view_serde_cases, exhaustive=True),
     Part("raw-commands", "enum", check, cases=raw_command_cases, exhaustive=True),
     Part("call-histories", "enum", check_history, cases=history_cases, exhaustive=True),
